@@ -382,7 +382,7 @@ BBASSIGN = {
 
 class SymExec:
     def __init__(self, facts, body, cgen=None, tgen=None, max_paths=20000, inline=None,
-                 opaque=None, max_inline_blocks=20, max_depth=4, params=None, entry_store=None):
+                 opaque=None, max_inline_blocks=20, max_depth=4, params=None, entry_store=None, raw=False):
         self.facts = facts
         self.ops = Ops(facts)
         self.body = body
@@ -399,6 +399,7 @@ class SymExec:
         self.params = params
         self.entry_store = entry_store
         self.nevents = 0
+        self.raw = raw
         self.types = {}
         self.dn = {}
         self._modset = {}
@@ -1294,6 +1295,9 @@ class SymExec:
     # ---------------------------------------------------------------- models
     def model(self, st, fr, name, args, targs, ev):
         o = self.ops
+        if self.raw and (name.startswith(BB) or name.startswith("<" + BB) or name.startswith("cozy_chess_types::square::Square::bitboard")
+                         or name.startswith("<cozy_chess_types::bitboard::")):
+            return None
         # BitBoard algebra
         if name.startswith("<" + BB + " as core::ops::"):
             for suf, op in BBOPS.items():
